@@ -2,6 +2,7 @@ SPECIFICATION Spec
 CONSTANT MaxLen = 4
 CONSTANT MaxAvail = 5
 CONSTANT Mode = "chars"
+CONSTANT MaxMsgs = 2
 CONSTANT Kinds = {"msg", "notice"}
 CONSTRAINT Report
 CHECK_DEADLOCK FALSE
